@@ -90,11 +90,23 @@ def data(case):
         # integer-valued observations stored as int64 (counts)
         Xtr = np.round(Xtr * 3).astype("int64")
         Xap = np.round(Xap * 3).astype("int64")
+    if case.get("static_col") and kind in STATIC_OK:
+        # one more variable that is constant over time within each instance; wrap() stores it as a
+        # primitive (non-nested) column of the nested frame, the 3-D array repeats it over time
+        def add(X, k):
+            v = np.round(np.cos(np.arange(len(X)) * 1.7 + k) * 3, 0 if case.get("int_panel") else 3).astype(X.dtype)
+            return np.concatenate([X, np.repeat(v[:, None, None], X.shape[2], axis=2)], axis=1)
+
+        Xtr, Xap = add(Xtr, 0), add(Xap, 1)
     if kind == "tsfr":
         y = np.round(np.linspace(-1.0, 2.0, ntr) + 0.1 * np.cos(np.arange(ntr)), 4)
     else:
         y = panelpool.labels_for(ntr, case["label_kind"], 2)
     return Xtr, y, Xap
+
+
+STATIC_OK = ("rocket", "itde")  # accept nested frames that also have primitive columns
+STATIC = [False]
 
 
 UNEQUAL_OK = ("pad", "trunc", "interp")
@@ -121,6 +133,8 @@ def wrap(X3, container, labels=None, lens=None):
             for i in range(X.shape[0]):
                 c = X.iat[i, j]
                 c.index = pd.RangeIndex(CELL_ORIGIN[0], CELL_ORIGIN[0] + len(c))
+    if STATIC[0]:
+        X[X.columns[-1]] = X3[:, -1, 0].copy()
     if labels is not None:
         # row labels are not data: a shuffled / filtered training frame that was not re-indexed
         n = len(X)
@@ -137,6 +151,9 @@ def oracle(case, ctx):
     if CELL_ORIGIN[0]:
         ctx.label("cell_time_index_origin_%d" % CELL_ORIGIN[0])
     Xtr, y, Xap = data(case)
+    STATIC[0] = bool(case.get("static_col")) and spec["kind"] in STATIC_OK
+    if STATIC[0]:
+        ctx.label("primitive_column")
     n = len(Xap)
     perm = [p % n for p in case["perm"]][:n]
     perm = list(dict.fromkeys(perm)) + [i for i in range(n) if i not in perm]
@@ -180,7 +197,7 @@ def oracle(case, ctx):
         if lens_ap is not None:
             return cut(Xap[rows], [lens_ap[q] for q in rows])
         if keep:
-            return panelpool.to_nested(Xap).iloc[rows]
+            return wrap(Xap, "nested").iloc[rows]
         return wrap(Xap[rows], case["apply_container"])
 
     for m in methods:
@@ -269,6 +286,8 @@ def cases(draw, family):
         kind = draw(st.sampled_from(panelpool.CLASSIFIERS + ("tsfr", "iboss", "cboss", "boss")))
         spec = {"kind": kind, "random_state": draw(st.integers(0, 50)), "n_columns": draw(st.integers(1, 2))}
     n_apply = draw(st.integers(2, 6))
+    if draw(st.integers(0, 3)) == 0:
+        spec["_vsp"] = True  # configured through set_params on an instance built with other values
     return {
         "family": family, "spec": spec, "seed": draw(st.integers(0, 10 ** 6)),
         "n_train": draw(st.integers(6, 10)), "n_apply": n_apply, "c": draw(st.integers(1, 2)), "t": draw(st.integers(12, 28)),
@@ -278,7 +297,7 @@ def cases(draw, family):
         "subset": draw(st.lists(st.integers(0, 5), min_size=1, max_size=4)),
         "fit_container": draw(st.sampled_from(["nested", "numpy3d"])),
         "apply_container": draw(st.sampled_from(["nested", "numpy3d"])),
-        "keep_labels": draw(st.booleans()), "prefit": draw(st.integers(0, 3)) == 0, "cell_origin": draw(st.sampled_from([0, 0, 3, -2])), "int_panel": draw(st.integers(0, 4)) == 0,
+        "keep_labels": draw(st.booleans()), "prefit": draw(st.integers(0, 3)) == 0, "cell_origin": draw(st.sampled_from([0, 0, 3, -2])), "static_col": draw(st.booleans()), "int_panel": draw(st.integers(0, 4)) == 0,
         "unequal": draw(st.one_of(st.none(), st.lists(st.integers(0, 30), min_size=2, max_size=6))),
         "fit_labels": draw(st.sampled_from([None, None, "shifted", "reversed", "shuffled", "strings"])),
     }
@@ -355,6 +374,9 @@ def enum_every_kind(tier):
             labels = None
         yield dict(base, family=fam, spec=spec, fit_container="nested" if (labels or origin) else cont, apply_container=cont,
                    keep_labels=labels is not None, fit_labels=labels, prefit=prefit, cell_origin=origin)
+        if k in STATIC_OK:
+            yield dict(base, family=fam, spec=spec, fit_container="nested" if (labels or origin) else cont, apply_container=cont,
+                       keep_labels=labels is not None, fit_labels=labels, prefit=prefit, cell_origin=origin, static_col=True)
 
 
 def subchecks():
